@@ -34,6 +34,8 @@ mod c19_retention;
 #[cfg(kani)]
 mod c13_derive;
 #[cfg(kani)]
+mod c18_resolver;
+#[cfg(kani)]
 mod c03_c05_framing;
 #[cfg(kani)]
 mod c03_update_path;
